@@ -330,6 +330,12 @@ fn leaf_block(cfg: &DocCfg, ctx: &str) -> BoxedStrategy<Blk> {
     opts.push((8, inlines(cfg, true, 7).prop_map(Blk::Para).boxed()));
     if on("heading") {
         let setext_on = cfg.on("setext");
+        // heading texts become link texts (extracted references, titles), written without escaping
+        let mut hcfg = cfg.clone();
+        if !cfg.on("heading_punct") {
+            hcfg.features.off.insert("code_span_punct".into());
+        }
+        let cfg = &hcfg;
         opts.push((
             5,
             (1u8..=6, any::<bool>(), 0u8..4, inlines(cfg, false, 4))
